@@ -31,6 +31,11 @@ func newEpochInput(r *Run, prop string, maxPop, maxEpochs int, tieFreeOnly bool)
 	if !tieFreeOnly && opts.PopSize <= 12 && r.Rng.Intn(3) == 0 {
 		rule = 3 + r.Rng.Intn(2)
 	}
+	// mixed-sign fitness clamps every negative value to the same number: ties everywhere, so in runs that are
+	// compared with the model (maxPop <= 30) only where every sorted slice has at most 12 elements
+	if prop == "C09" && r.Rng.Intn(4) == 0 && (opts.PopSize <= 12 || maxPop > 30) {
+		rule = 5
+	}
 	return &epochInput{Prop: prop, Seed: r.Rng.Int63(), Opts: opts, Start: genomeText(s), Epochs: 2 + r.Rng.Intn(maxEpochs-1), FitRule: rule}
 }
 
